@@ -79,7 +79,7 @@ type dpHist struct {
 	newIdx     [][][]string // candidate new indexes per table
 	failed     bool
 	soft       bool
-	nNoOff  int
+	nNoOff     int
 	plainBuild bool // scripted history: index build without any generated extras
 	hid        int
 	log        []string // op lines of this history (for failure descriptions)
